@@ -58,6 +58,20 @@ Proof.
   lia.
 Qed.
 
+(* ... which bounds the parameters of the statement only if no VALUES element holds more than one
+   bound parameter: k = bound parameters per VALUES row, so the statement carries
+   (tot - k) + size * k parameters *)
+Lemma clamp_limit_binds bs mp tot per k bs' : 1 <= per -> mp <> 0 -> 0 <= k <= per -> 1 <= bs' ->
+  clamp bs mp tot per = Ok bs' -> (tot - k) + bs' * k <= mp.
+Proof.
+  intros Hper Hmp Hk Hbs H. pose proof (clamp_limit bs mp tot per bs' Hper Hmp H).
+  assert (k * (bs' - 1) <= per * (bs' - 1)) by (apply Z.mul_le_mono_nonneg_r; lia). lia.
+Qed.
+Lemma clamp_limit_binds_refuted :
+  exists bs mp tot per k bs', 1 <= per /\ 1 <= bs /\ tot <= mp /\ per <= k /\
+    clamp bs mp tot per = Ok bs' /\ 1 <= bs' /\ (tot - k) + bs' * k > mp.
+Proof. exists 20000, 32700, 3, 1, 3, 20000. repeat split; try lia; reflexivity. Qed.
+
 (* ---------------- total_batches ---------------- *)
 Lemma total_batches_small n bs : 0 < n <= bs -> total_batches_expr n bs = 1.
 Proof.
